@@ -109,6 +109,8 @@ static forked_result run_forked(const scase& c, const run_opts& o, bool quiet) {
                       ? "hang: the case did not finish within " + std::to_string(CPU_LIMIT_S) + " s of CPU time"
                       : "crash: killed by signal " + std::to_string(sig) +
                             (sig == SIGABRT ? " (assertion / abort)" : sig == SIGSEGV ? " (SIGSEGV)" : "");
+    } else if (WEXITSTATUS(status) == 43) {
+      r.message = "a node or root lock was left held: a single-threaded operation reached a spin-wait";
     } else {
       r.message = "crash: exit status " + std::to_string(WEXITSTATUS(status)) + " (sanitizer report)";
     }
@@ -170,6 +172,7 @@ int main(int argc, char** argv) {
   o.check_c01 = prop == "C01" || prop == "all";
   o.check_c02 = prop == "C02" || prop == "all";
   o.check_c10 = prop == "C10" || prop == "all";
+  o.check_c08 = prop == "C08";
   o.k1_exclusion = !a.has("no-k1");
   o.collect = true;
 
@@ -194,7 +197,7 @@ int main(int argc, char** argv) {
   const std::uint64_t cases = a.u64("cases", 100);
   gen_params gp;
   gp.size = static_cast<unsigned>(a.u64("size", 200));
-  gp.fl = prop == "C02" ? F_SCAN : prop == "C10" ? F_SHAPE : F_POINT;
+  gp.fl = prop == "C02" ? F_SCAN : prop == "C10" ? F_SHAPE : prop == "C08" ? F_FAULT : F_POINT;
   std::vector<int> cfgs;
   {
     std::string s = a.str("cfgs", "0,1,2,3,4,5");
@@ -231,7 +234,11 @@ int main(int argc, char** argv) {
       st.inc("ops", c.ops.size());
       st.inc("k1_excluded_ops", v.k1_excluded);
       if (v.k1_excluded) st.inc("cases_with_k1_exclusion");
-      if (prop == "C02") {
+      st.inc("faults", v.faults);
+      st.inc("faults_k2plus", v.faults_k2plus);
+      if (prop == "C08") {
+        if (v.faults_k2plus) st.add_nontrivial(case_hash(c));
+      } else if (prop == "C02") {
         st.inc("nontrivial_scans", v.nontrivial_scans);
       } else if (prop == "C10") {
         if (v.nontrivial_c01 && v.revisited_keyset) st.add_nontrivial(case_hash(c));
